@@ -151,6 +151,12 @@ type SecureChannel struct {
 	chunks   map[uint32][]*MessageChunk
 	chunksMu sync.Mutex
 
+	// rcvSequenceNumber is the sequence number of the chunk accepted last.
+	// It is valid once rcvSequenceNumberSet is true since 0 is a legal number.
+	// Both are only used by readChunk.
+	rcvSequenceNumber    uint32
+	rcvSequenceNumberSet bool
+
 	// openingInstance is a temporary var that allows the dispatcher know how to handle a open channel request
 	// note: we only allow a single "open" request in flight at any point in time. The mutex is held for the entire
 	// duration of the "open" request.
@@ -537,7 +543,35 @@ func (s *SecureChannel) readChunk() (*MessageChunk, error) {
 	}
 	m.Data = m.Data[n:]
 
+	// the chunk is verified: now its sequence number can be trusted
+	if err := s.checkSequenceNumber(m.SequenceHeader.SequenceNumber); err != nil {
+		return nil, err
+	}
+
 	return m, nil
+}
+
+// checkSequenceNumber rejects a chunk whose sequence number is not greater
+// than the number of the chunk accepted before it on this secure channel, e.g.
+// a chunk which was recorded and is sent again. The numbers are shared by all
+// security tokens of the channel.
+//
+// OPC UA Part 6, 6.7.2.4: a sender lets the number roll over once it is
+// greater than UInt32.MaxValue - 1024 and continues with a number below 1024.
+// The first chunk received on the channel may carry any number.
+//
+// Only readChunk calls this, after the chunk has been verified, and chunks are
+// read one at a time.
+func (s *SecureChannel) checkSequenceNumber(n uint32) error {
+	if s.rcvSequenceNumberSet {
+		last := s.rcvSequenceNumber
+		rollOver := last >= math.MaxUint32-1024 && n < 1024
+		if n <= last && !rollOver {
+			return ua.StatusBadSequenceNumberInvalid
+		}
+	}
+	s.rcvSequenceNumber, s.rcvSequenceNumberSet = n, true
+	return nil
 }
 
 // verifyAndDecrypt verifies and optionally decrypts a message. if `instance` is given, then it will only use that
